@@ -152,7 +152,13 @@ func (d *DefaultMetricLogWriter) rollToNextFile(time uint64) error {
 	if err != nil {
 		return err
 	}
-	return d.closeCurAndNewFile(newFilename)
+	if err = d.closeCurAndNewFile(newFilename); err != nil {
+		return err
+	}
+	// Index the head of the new file. Lines of the second that is current when a file is rolled (more batches of
+	// the same second after a size roll, the first second of a new day, the second in which the writer was created)
+	// would otherwise precede the file's first index entry, and the searcher would never reach them.
+	return d.writeIndex(int64(time/1000), 0)
 }
 
 func (d *DefaultMetricLogWriter) writeIndex(time, offset int64) error {
